@@ -247,6 +247,28 @@ def run_case(concepts, case, spec):
         call(list, lat)
         call(len, lat)
         COL.count('asked_again_after_interference')
+    # near relatives built and asked for their lattice RIGHT AFTER this one (what a "most recent result" memo keyed
+    # by part of a context's identity would confuse): the same rows plus a trailing empty property / a trailing
+    # empty object / a trailing full property, the same rows under other labels, then the same table again
+    if hash(gen.table_key(case)) % 3 == 2 and len(case['objects']) <= 40 and len(case['properties']) <= 40 \
+            and not case.get('via') and not case.get('subclass') and 'twin_rows' not in case:
+        o, p, rows = list(case['objects']), list(case['properties']), list(case['rows'])
+        m = len(p)
+        relatives = [dict(case, properties=p + ['zz·extra·property'], rows=rows),
+                     dict(case, objects=o + ['zz·extra·object'], rows=rows + [0]),
+                     dict(case, properties=p + ['zz·full·property'], rows=[r | 1 << m for r in rows]),
+                     dict(case, objects=[x + '·' for x in o], properties=[x + '·' for x in p], rows=rows),
+                     dict(case)]
+        rng.shuffle(relatives)
+        for rel in relatives[:3] + [dict(case)]:
+            c2 = common.build_or_skip(concepts, rel)
+            if c2 is None:
+                continue
+            l2 = common.get_lattice(c2)
+            if l2 is not RAISED:
+                call(list, l2)
+                call(len, l2)
+        COL.count('near_relatives_built_right_after')
     old = POOL.older(rng)
     if old is not None:
         call(list, old)
